@@ -10,6 +10,10 @@
 EXTENDS Integers, Sequences, FiniteSets, TLC
 
 BIG == -1  \* stands for a decimal number that does not fit in 63 bits
+\* stands for a number that fits in 63 bits but lies far beyond every object size
+\* (rendered as 2^31, 2^32, 2^63-2 and 2^63-1): a first position there is beyond
+\* the end, a last position there is clipped to the object
+HUGE == 1000000
 
 Whole(size)    == [status |-> 200, lo |-> 0, hi |-> size - 1]
 Part(lo, hi)   == [status |-> 206, lo |-> lo, hi |-> hi]
@@ -73,7 +77,7 @@ ParseOK(size, r, p) ==
         ELSE x.status = 200 /\ p.start = 0 /\ p.len = size
 
 \* ---- lemmas about the definition itself (checked by TLC as ASSUME-like invariants)
-Nums(maxn) == 0 .. maxn \cup {BIG}
+Nums(maxn) == 0 .. maxn \cup {BIG, HUGE}
 Ranges(maxn) ==
     [kind : {"absent", "empty", "garbage", "noeq", "unit"}, a : {0}, b : {0}]
       \cup [kind : {"ab", "ws", "multi", "neg", "dbl"}, a : Nums(maxn), b : Nums(maxn)]
